@@ -37,6 +37,7 @@ func genC11(t *rapid.T) c11Case {
 		var st c11Stream
 		nSess := rapid.IntRange(1, scale(6, 12)).Draw(t, "nsess")
 		live := []int{}
+		estOf := map[int]model.Op{}
 		for k := 0; k < nSess; k++ {
 			idx := p*100 + k
 			var op model.Op
@@ -58,11 +59,24 @@ func genC11(t *rapid.T) c11Case {
 			op.Peer, op.Seq, op.Sess = 0, uint32(1000+k), idx
 			st.Ops = append(st.Ops, op)
 			live = append(live, idx)
+			estOf[idx] = op
 			// interleave modifications and deletions of this peer's own sessions
 			if rapid.Bool().Draw(t, "mod") && len(live) > 0 {
 				si := live[rapid.IntRange(0, len(live)-1).Draw(t, "msi")]
 				nf := genUP4DLFAR(t, 2)
-				st.Ops = append(st.Ops, model.Op{Kind: "mod", Seq: uint32(2000 + k), Sess: si, UpdFARs: []model.FAR{nf}, Note: "updfar"})
+				mod := model.Op{Kind: "mod", Seq: uint32(2000 + k), Sess: si, UpdFARs: []model.FAR{nf}, Note: "updfar"}
+				// every third modification also carries an Update PDR that re-states a downlink PDR of the session
+				// (the bookkeeping of UE addresses is touched again while other associations are busy)
+				if rapid.IntRange(0, 2).Draw(t, "updpdr") == 0 {
+					for _, pd := range estOf[si].PDRs {
+						if pd.Src == "core" && !pd.UEAlloc {
+							mod.UpdPDRs = []model.PDR{pd}
+							mod.Note = "updfar+updpdr"
+							break
+						}
+					}
+				}
+				st.Ops = append(st.Ops, mod)
 			}
 			if rapid.IntRange(0, 3).Draw(t, "del") == 0 && len(live) > 0 {
 				j := rapid.IntRange(0, len(live)-1).Draw(t, "dsi")
